@@ -24,7 +24,7 @@ var Scalars = []string{
 var TopOnly = []string{"Date", "Date32", "DateTime", "DateTime64(3)", "DateTime64(9)", "Point",
 	"Enum8('a' = 1, 'b' = 2)", "Enum8('neg' = -128, 'zero' = 0, 'max' = 127, 'x y' = 5)", "Enum16('lo' = -32768, 'a' = 1, 'big' = 300, 'hi' = 32767)",
 	"IntervalSecond", "IntervalWeek", "IntervalYear",
-	"JSON",
+	"JSON", "Nullable(Nothing)", "Array(Nothing)",
 }
 
 // Maps with a static instantiation in NewCol.
@@ -386,7 +386,10 @@ func Values(r *rand.Rand, t *refproto.Type, n int) []any {
 
 // DrawRows draws a boundary-biased row count.
 func DrawRows(c *choice.Stream, label string) int {
-	switch c.Weighted(label, 2, 3, 8, 2, 2) {
+	switch c.Weighted(label, 4, 6, 16, 4, 4, 1) {
+	case 5:
+		// around the sizes of pages and 16-bit counters
+		return c.Pick(label+".p", 4095, 4096, 4097, 8192, 12288, 65535, 65536)
 	case 0:
 		return 0
 	case 1:
